@@ -317,11 +317,12 @@ int main(int argc, char** argv) {
   }
   {
     Sub s; s.name = "c13.fluids"; s.property = "C13"; s.instances = 27; s.n_quick = 6000; s.n_thorough = 100000; s.run = c13;
-    s.gen = [](int inst) { const int cls = inst % 3, nta = (inst / 3) % 3, ntm = inst / 9; const int nmin = ntinfo(ntm).mant < ntinfo(nta).mant ? ntm : nta; const int w = nmin == 0 ? 12 : 40, wt = nmin == 0 ? 10 : 20;
+    s.gen = [](int inst) { const int cls = inst % 3, nta = (inst / 3) % 3, ntm = inst / 9; const int nmin = ntinfo(ntm).mant < ntinfo(nta).mant ? ntm : nta; const int w = nmin == 0 ? 30 : 100, wt = nmin == 0 ? 10 : 20;
       return rc::gen::map(rc::gen::tuple(gen_reals(2, ntm, -w, w, 0), gen_reals(2, nta, -4, 4, kNeg), irange(0, 1), gen_reals(18, nta, -wt, wt, kNeg | kZero)), [=](const std::tuple<std::vector<LD>, std::vector<LD>, int, std::vector<LD>>& t) {
         Case c; c.i = {ntm, nta, cls}; c.r = std::get<0>(t); LD al = std::get<1>(t)[0], be = std::get<1>(t)[1]; if (std::get<2>(t)) { int e; std::frexp(al, &e); al = std::ldexp((LD)(al < 0 ? -1 : 1), e); std::frexp(be, &e); be = std::ldexp((LD)(be < 0 ? -1 : 1), e); }
-        // bulk viscosity within a few orders of magnitude of the shear viscosity
-        c.r[1] = round_to(ntm, c.r[0] * std::ldexp((LD)1 + std::fabs(std::get<1>(t)[0]) / 32, (int)(std::fabs(std::get<1>(t)[1]) * 2) - 8));
+        // bulk viscosity: two thirds of the cases within a few orders of magnitude of the shear viscosity, one third independent of it over the whole window
+        // (a tiny but non-zero bulk viscosity is still a bulk viscosity)
+        if (std::get<2>(t) || std::fabs(std::get<1>(t)[0]) > 1) c.r[1] = round_to(ntm, c.r[0] * std::ldexp((LD)1 + std::fabs(std::get<1>(t)[0]) / 32, (int)(std::fabs(std::get<1>(t)[1]) * 2) - 8));
         c.r.push_back(al); c.r.push_back(be); c.r.insert(c.r.end(), std::get<3>(t).begin(), std::get<3>(t).end()); return c; }); };
     s.instance_name = [](int inst) { static const char* cn[] = {"Incompressible", "Compressible(mu)", "Compressible(mu,mu_b)"}; return std::string(cn[inst % 3]) + "<" + ntinfo(inst / 9).name + ">/arg<" + ntinfo((inst / 3) % 3).name + ">"; };
     s.rule = "both fluid classes (compressible also from a viscosity alone => bulk viscosity +0) x 3 model numeric types x 3 argument overloads, direct and through the abstract interface; viscosities over +-40 binades; oracle: "
